@@ -620,7 +620,10 @@ impl<T: Transport, E: UtpEnvironment> Dispatcher<T, E> {
             remote,
             header: msg.header,
         };
-        while let Some(acceptor) = self.accept_queue.try_next_acceptor() {
+        // Older SYNs still waiting for an acceptor are served first (by cleanup_accept_queue()):
+        // a new SYN only takes an acceptor directly when nothing is queued before it.
+        let nothing_queued = self.accept_queue.syns.is_empty();
+        while nothing_queued && let Some(acceptor) = self.accept_queue.try_next_acceptor() {
             match self.match_syn_with_accept(syn, acceptor) {
                 MatchSynWithAccept::Matched => return Ok(()),
                 MatchSynWithAccept::SynInvalid(sender) => {
